@@ -840,7 +840,7 @@ def teardown(ctx):
 
 
 def plan(tier):
-    m = 2 if tier == 'quick' else 24
+    m = 2 if tier == 'quick' else 96
     p = []
     for size in SIZES:
         for sup in SUPPORTS:
